@@ -76,6 +76,13 @@ func (s *Syncer) parallelSync(ctx context.Context, cs consensus.State, headers [
 			}
 			resp.blocks = blocks
 			for _, b := range blocks {
+				// AddValidatedV2Blocks does not validate: apply the manager's
+				// future-timestamp policy (ErrFutureBlock in AddBlocks) here
+				if b.Timestamp.After(cs.MaxFutureTimestamp(time.Now())) {
+					err := fmt.Errorf("block %v has a timestamp too far in the future", b.ID())
+					s.ban(p, err)
+					return Resp{req: req, peer: p, err: err}
+				}
 				if err := consensus.ValidateBlock(cs, b, consensus.V1BlockSupplement{}); err != nil {
 					s.ban(p, fmt.Errorf("sent invalid block %v: %w", b.ID(), err))
 					return Resp{req: req, peer: p, err: err}
